@@ -330,11 +330,19 @@ class PercentFormatString:
                 seen_keys = set()
                 non_literals = []
                 for pair in args.kv_pairs:
-                    if isinstance(pair.key, KnownValue) and isinstance(
-                        pair.key.val, str
-                    ):
-                        seen_keys.add(pair.key.val)
-                        for specifier in cs_map[pair.key.val]:
+                    if isinstance(pair.key, KnownValue):
+                        key = pair.key.val
+                        # A text pattern looks its keys up as str, a bytes pattern
+                        # as bytes; a literal key of another type matches nothing.
+                        if self.is_bytes and isinstance(key, bytes):
+                            try:
+                                key = key.decode("ascii")
+                            except UnicodeDecodeError:
+                                continue
+                        elif self.is_bytes or not isinstance(key, str):
+                            continue
+                        seen_keys.add(key)
+                        for specifier in cs_map[key]:
                             yield from specifier.accept(pair.value, ctx)
                     else:
                         non_literals.append(pair.key)
